@@ -106,11 +106,13 @@ fn flat_game(dump: &Dump<String, String>, t: &Tree, meth: &str, k: usize) -> Val
 /// probabilities as exact rationals [n, d] where a small denominator reproduces the float, else as
 /// micro-units [round(x * 1e6), 1000000]
 fn rats(v: &[f64]) -> Value {
+    // one encoding per vector: all exact, or all in micro-units
+    let all_exact = exact(v);
     Value::Array(
         v.iter()
             .map(|x| match util::reconstruct(*x, 30000) {
-                Some((n, d)) => json!([n, d]),
-                None => json!([(x * 1e6).round() as i64, 1000000]),
+                Some((n, d)) if all_exact => json!([n, d]),
+                _ => json!([(x * 1e6).round() as i64, 1000000]),
             })
             .collect(),
     )
